@@ -7,22 +7,25 @@ from ..rules.results import lvalue_text
 from ..util import switch_table, find_switches, is_assign
 
 EXPLANATION = (
-    "Static decision of capacity clauses of C09: (1) in carquet_snappy_compress and "
-    "carquet_lz4_compress the comparison of dst_capacity with the codec's own compress_bound(src_size), "
-    "with an error return, dominates every store through dst; the zlib/zstd wrappers hand dst_capacity "
-    "unchanged to the library as its output limit; (2) the page writer's compress_data, executed abstractly "
-    "once per codec value with its callees hooked, pairs the bound function with the compressor of the "
-    "same codec, allocates exactly `bound` bytes, passes the same `bound` as capacity, appends only the "
-    "compressor's buffer (the caller's bytes only for UNCOMPRESSED), frees it, and returns an error "
-    "without writing for unknown codecs and for a failed scratch allocation; (3) the match-distance guard of the "
-    "built-in compressors admits only offsets that fit the two offset bytes they emit (<= 65535), and "
-    "the guard dominates the emission; (4) every decompressor stores *dst_size only on success paths "
-    "and what it reports cannot exceed dst_capacity (the built-in ones compare against it, the wrappers "
-    "report the library's count for that capacity); (5) in the LZ4/Snappy decoders and in every "
-    "implementation installed in the match_copy dispatch slot, a block copy (memcpy, vector load/store) "
-    "from the output's own history is nested in a branch that establishes distance >= width of the "
-    "copy, so it equals the forward byte copy the formats define for overlapping matches. Decides these clauses, not the round trip nor "
-    "sufficiency of the bound formulas.")
+    "Static decision of capacity clauses of C09: (1) in carquet_snappy_compress and carquet_lz4_compress "
+    "the comparison of dst_capacity with the codec's own compress_bound(src_size), with an error return, "
+    "dominates every store through dst; the zlib/zstd wrappers hand dst_capacity unchanged to the library "
+    "as its output limit; (2) the page writer's compress_data, executed abstractly once per codec value "
+    "with its callees hooked, pairs the bound function with the compressor of the same codec, allocates "
+    "exactly `bound` bytes, passes the same `bound` as capacity, appends only the compressor's buffer "
+    "(the caller's bytes only for UNCOMPRESSED), frees it, and returns an error without writing for "
+    "unknown codecs and for a failed scratch allocation; (3) the match-distance guard of the built-in "
+    "compressors admits only offsets that fit the two offset bytes they emit (<= 65535), and the guard "
+    "dominates the emission; (4) every decompressor stores *dst_size only on success paths and what it "
+    "reports cannot exceed dst_capacity (the built-in ones compare against it, the wrappers report the "
+    "library's count for that capacity); (5) in the LZ4/Snappy decoders and in every implementation "
+    "installed in the match_copy dispatch slot, a block copy (memcpy, vector load/store) from the "
+    "output's own history is nested in a branch that establishes distance >= width of the copy, so it "
+    "equals the forward byte copy the formats define for overlapping matches. (6) the gzip bound is "
+    "zlib's compressBound() plus the wrapper bytes, a guarantee stated for the default deflate "
+    "parameters: deflateInit2 is called with memLevel >= 8 and a 32K window (the argument may be a "
+    "constant or a helper of the file whose every return value is enumerated). Decides these clauses, not "
+    "the round trip nor sufficiency of the bound formulas.")
 
 SN = "src/compression/snappy.c"
 LZ = "src/compression/lz4.c"
